@@ -61,8 +61,48 @@ func (f *Frame) lockOp(mu ssa.Value, lock bool, reach string, st *State, pos tok
 	owner := f.val(fa.X)
 	hh := heldHeap(gd)
 	if lock {
+		// `guards T.mu: ..., *U`: every object of type U is protected by the mutex as a whole:
+		// another goroutine may have changed any field of any U (and anything whose allocation
+		// type is not known to differ, such as maps and slice backing arrays) while the lock was
+		// not held. Ghost heaps and which locks are held are unaffected.
+		var tmods []string
+		for _, fname := range gd.Fields {
+			if !strings.HasPrefix(fname, "*") {
+				continue
+			}
+			var nt types.Type
+			for _, p := range f.eng.Prog.SSA.AllPackages() {
+				if p.Pkg.Path() == gd.Pkg {
+					if obj := p.Pkg.Scope().Lookup(fname[1:]); obj != nil {
+						if tn, ok := obj.(*types.TypeName); ok {
+							nt = tn.Type()
+						}
+					}
+				}
+			}
+			if nt == nil {
+				f.bail("guards %s: no type %s", gd.Key, fname[1:])
+			}
+			tmods = append(tmods, fmt.Sprintf("type:%d", f.eng.typeID(nt)))
+		}
+		if len(tmods) > 0 {
+			for name := range ghostHeaps {
+				f.heap(st, "G_"+name)
+			}
+			after := f.havocState(st, &WriteSet{All: true}, "lock")
+			for k, v := range st.heaps {
+				if strings.HasPrefix(k, "G_") {
+					after.heaps[k] = v
+				}
+			}
+			f.frameFacts(st, after, "true", tmods)
+			*st = *after
+		}
 		// havoc guarded fields of this owner
 		for _, fname := range gd.Fields {
+			if strings.HasPrefix(fname, "*") {
+				continue
+			}
 			idx := -1
 			for i := 0; i < stt.NumFields(); i++ {
 				if stt.Field(i).Name() == fname {
